@@ -13,6 +13,14 @@ Sections
   d3   trees of depth 3 over a restricted leaf alphabet
   seq  two constraints sharing constraint variables verified one after the other with ONE ConstraintContext
   hint type hints built from generic attribute classes: irdl_to_attr_constraint(h).verifies == isa == reference
+  ord  unions of a broad (non-final) base with the alternatives it covers, in EVERY order of the alternatives
+  hist HISTORIES over a pool of SHARED constraint objects (unions with >= 2 bases, Msg/Var wrappers around them, bases,
+       Param, Eq, Set): the empty history and every sequence of <= 2 (quick) / <= 2 over a larger pool and <= 3 over a
+       smaller one (thorough) construction steps AnyOf(...) / `|` / AllOf(...) / `&` (thorough only) / Msg / Var wrappers
+       over pool objects and earlier results, each followed by the client calls get_bases() and verify().  Every history
+       runs on a FRESH pool.  Oracle: (1) every pool object / earlier composite accepts exactly what it accepted when
+       it was built and (3) reports the same get_bases() value; (2) the new composite accepts exactly the reference
+       evaluation of its description.  Constraint objects are values; constructing one must not change another.
 In every accepting run the ConstraintContext is harvested and, for every subset S of the bound variables,
 `can_infer(S)  =>  infer(ctx|S)` must return an attribute accepted by the constraint (real and reference).
 
@@ -1098,6 +1106,371 @@ def hints_for(task, quick):
 
 
 # ------------------------------------------------------------------------------------------------
+# histories: a pool of SHARED constraint objects and all short construction sequences over it
+# ------------------------------------------------------------------------------------------------
+# Constraint objects are values: dialects define them once at module level and use the same object in many
+# later constructions.  Building (and using) one constraint must therefore never change what another one
+# accepts, nor what its get_bases() reports.  A history is
+#     fresh pool  ->  step 1  ->  ...  ->  step L  ->  probe
+# where a step builds ONE new composite out of pool objects / results of earlier steps and then uses it the way a
+# client does (get_bases() once, verify() on every value of U_HIST), and the probe asks every live object (pool,
+# hidden pool parts, every earlier composite) for get_bases() and for verify() on every value of U_HIST.  Every
+# history gets a FRESH pool, so nothing leaks from one history into the next.  The discrepancies of a history are
+# attributed to its LAST step: the ones already present after its prefix (which is a history of its own) are
+# subtracted.
+U_HIST = (I32, I64, IDX, SA, IA(0, I32), IA(0, IDX), VS1, ("arr", ()))
+_H_PARAM = ("iattr", _base("IndexType"))   # ParamAttrConstraint.get(IntegerAttr, None, BaseAttr(IndexType))
+
+# pool entry: (label, kind, operands (indices of EARLIER pool entries) or a leaf AST, selectable as step operand)
+_HP_COMMON = (
+    ("B_int", "leaf", _base("IntegerType")),
+    ("B_str", "leaf", _base("StringAttr")),
+    ("B_idx", "leaf", _base("IndexType")),
+)
+H_POOLS = {
+    # quick pool
+    "p10": tuple((lab, k, ops, True) for lab, k, ops in _HP_COMMON + (
+        ("PR", "leaf", _H_PARAM),
+        ("EQ", "leaf", _eq(SA)),
+        ("SET", "leaf", _set(I32, SA)),     # AttrSetConstraint: 2 bases without being a union
+        ("U1", "anyof.ctor", (0, 1)),       # IntegerType | StringAttr            (2 bases)
+        ("U2", "anyof.ctor", (2, 3)),       # IndexType | IntegerAttr<any, index>    (2 bases)
+        ("M1", "msg", (6,)),                # MessageConstraint(U1)
+        ("V1", "var", (6,)),                # VarConstraint("T", U1)
+    )),
+    # thorough depth-2 pool: p10 + an abstract base and a flattened 3-alternative union that shares its parts with U2
+    "p12": tuple((lab, k, ops, True) for lab, k, ops in _HP_COMMON + (
+        ("PR", "leaf", _H_PARAM),
+        ("EQ", "leaf", _eq(SA)),
+        ("SET", "leaf", _set(I32, SA)),
+        ("U1", "anyof.ctor", (0, 1)),
+        ("U2", "anyof.ctor", (2, 3)),
+        ("M1", "msg", (6,)),
+        ("V1", "var", (6,)),
+        ("B_ab", "leaf", _base("AB")),
+        ("U3", "anyof.get", (7, 10)),       # AnyOf.get(U2, AB) = AnyOf((B_idx, PR, B_ab)): abstract slot, no bases
+    )),
+    # thorough depth-3 pool (B_int is a hidden part of U1: probed, never an operand)
+    "p4": (
+        ("B_int", "leaf", _base("IntegerType"), False),
+        ("B_str", "leaf", _base("StringAttr"), True),
+        ("B_idx", "leaf", _base("IndexType"), True),
+        ("PR", "leaf", _H_PARAM, True),
+        ("U1", "anyof.ctor", (0, 1), True),
+    ),
+}
+H_KINDS = {  # (`x | y` is AnyOf.get(x, y) but for two shortcuts, so AnyOf.get is not a step kind of its own)
+    "k5": ("anyof.ctor", "anyof.or", "allof.ctor", "msg", "var"),
+    "k6": ("anyof.ctor", "anyof.or", "allof.ctor", "allof.and", "msg", "var"),
+}
+_H_UNARY = ("msg", "var")
+
+
+def _h_families(quick):
+    """(pool, step kinds, max history length)"""
+    if quick:
+        return (("p10", "k5", 2),)
+    return (("p4", "k5", 3), ("p12", "k6", 2))
+
+
+def _h_apply(kind, xs, dxs, varname):
+    """ONE construction through the public API; returns (real constraint, its description AST)"""
+    if kind == "leaf":
+        return build(dxs), dxs
+    if kind == "msg":
+        return MessageConstraint(xs[0], "c09 history"), ("msg", dxs[0])
+    if kind == "var":
+        return VarConstraint(varname, xs[0]), ("var", varname, dxs[0])
+    fam, how = kind.split(".")
+    if kind == "anyof.ctor":
+        o = AnyOf(tuple(xs))
+    elif kind == "anyof.get":
+        o = AnyOf.get(*xs)
+    elif kind == "anyof.or":
+        o = functools.reduce(operator.or_, xs)
+    elif kind == "allof.ctor":
+        o = AllOf(tuple(xs))
+    elif kind == "allof.and":
+        o = functools.reduce(operator.and_, xs)
+    else:
+        raise AssertionError(kind)
+    return o, (fam, how, tuple(dxs))
+
+
+def _h_bkey(o):
+    """get_bases() as a VALUE: None or the sorted class names"""
+    try:
+        b = o.get_bases()
+    except Exception as e:  # noqa: BLE001
+        return ("raise", type(e).__name__)
+    return None if b is None else tuple(sorted(c.__name__ for c in b))
+
+
+def _h_flags(o, reals):
+    out = []
+    for a in reals:
+        try:
+            o.verify(a, ConstraintContext())
+            out.append("acc")
+        except VerifyException:
+            out.append("rej")
+        except Exception as e:  # noqa: BLE001
+            out.append(f"raise:{type(e).__name__}")
+    return tuple(out)
+
+
+@functools.lru_cache(maxsize=None)
+def _h_ref(desc):
+    return tuple("acc" if accept(desc, v, {}) is not None else "rej" for v in U_HIST)
+
+
+@functools.lru_cache(maxsize=None)
+def _h_reals():
+    return tuple(real(v) for v in U_HIST)
+
+
+def _h_steps(kinds, avail):
+    out = []
+    for k in kinds:
+        if k in _H_UNARY:
+            out += [(k, a, -1) for a in avail]
+        else:
+            out += [(k, a, b) for a in avail for b in avail]
+    return out
+
+
+class _HRun:
+    __slots__ = ("objs", "descs", "bases", "flags", "outcome", "D", "nverify")
+
+
+def _h_play(spec, steps, known):
+    """fresh pool, the steps, the probe.  `known`: what the pool objects and the results of steps[:-1] accepted when
+    they were built, as observed in the prefix history (the implementation is deterministic, and the prefix is a
+    history of its own); None = this IS the empty history: measure the pool and compare it with the reference.
+    Intermediate steps construct and call get_bases(); the last step also verifies its result on all of U_HIST."""
+    reals = _h_reals()
+    r = _HRun()
+    objs, descs, bases, outcome = [], [], [], []
+    for label, kind, ops, _sel in spec:
+        if kind == "leaf":
+            o, d = _h_apply("leaf", None, ops, None)
+        else:
+            o, d = _h_apply(kind, [objs[i] for i in ops], [descs[i] for i in ops], "T")
+        objs.append(o)
+        descs.append(d)
+        bases.append(_h_bkey(o))
+    npool = len(objs)
+    r.nverify = 0
+    D = {}
+    if known is None:
+        assert not steps
+        flags = [_h_flags(o, reals) for o in objs]
+        r.nverify += npool * len(reals)
+        fresh = set(range(npool))
+    else:
+        flags = list(known[:npool + len(steps) - 1])
+        fresh = {npool + len(steps) - 1}
+    for k, (kind, a, b) in enumerate(steps, 1):
+        ops = (a,) if b < 0 else (a, b)
+        try:
+            o, d = _h_apply(kind, [objs[i] for i in ops], [descs[i] for i in ops], f"H{k}")
+        except PyRDLError as e:
+            o = d = None
+            outcome.append("refused:" + _refusal(e))
+        except Exception as e:  # noqa: BLE001
+            o = d = None
+            outcome.append("raised")
+            D[("crash", npool + k - 1)] = (type(e).__name__, str(e)[:200])
+        else:
+            outcome.append("built")
+        objs.append(o)
+        descs.append(d)
+        bases.append(None if o is None else _h_bkey(o))          # client call: get_bases()
+        if k == len(steps):
+            flags.append(None if o is None else _h_flags(o, reals))  # client call: verify() on every value
+            r.nverify += 0 if o is None else len(reals)
+    for i, o in enumerate(objs):         # the probe
+        if o is None or flags[i] is None:
+            continue
+        nb = _h_bkey(o)
+        if nb != bases[i]:
+            D[("bases", i)] = (bases[i], nb)
+        if i in fresh:  # verified a moment ago: is it what the description says?
+            rf = _h_ref(descs[i])
+            if flags[i] != rf:
+                D[("born", i)] = (rf, flags[i])
+            continue
+        nf = _h_flags(o, reals)
+        r.nverify += len(reals)
+        if nf != flags[i]:
+            D[("acc", i)] = (flags[i], nf)
+    r.objs, r.descs, r.bases, r.flags, r.outcome, r.D = objs, descs, bases, flags, outcome, D
+    return r
+
+
+def _h_label(spec, i):
+    return spec[i][0] if i < len(spec) else f"r{i - len(spec) + 1}"
+
+
+def _h_step_text(spec, steps):
+    out = []
+    for k, (kind, a, b) in enumerate(steps, 1):
+        ops = _h_label(spec, a) + ("" if b < 0 else ", " + _h_label(spec, b))
+        out.append(f"r{k} = {kind}({ops})")
+    return out
+
+
+def _h_first_diff(f1, f2):
+    return next(i for i in range(len(f1)) if f1[i] != f2[i])
+
+
+def _h_violate(st, sig, what, wit):
+    """st.violate, but the witness kept for a signature is the one with the fewest (then smallest) steps"""
+    old = st.violations.get(sig)
+    st.violate(sig, what, wit)
+    if old is not None and _h_shorter(wit, old["witness"]):
+        old["what"], old["witness"] = what, wit
+
+
+def _h_shorter(w_new, w_old):
+    return (isinstance(w_new, dict) and isinstance(w_old, dict) and w_new.get("mode") == "history" == w_old.get("mode")
+            and (len(w_new["steps"]), w_new["steps"]) < (len(w_old["steps"]), w_old["steps"]))
+
+
+def _h_merge(ctx, st):
+    """ctx.merge(st), keeping the shortest history witness per signature"""
+    better = {sig: v for sig, v in st.violations.items()
+              if sig in ctx.stats.violations and _h_shorter(v["witness"], ctx.stats.violations[sig]["witness"])}
+    ctx.merge(st)
+    for sig, v in better.items():
+        ctx.stats.violations[sig]["what"], ctx.stats.violations[sig]["witness"] = v["what"], v["witness"]
+
+
+def _h_account(st, pool_name, spec, steps, r, Dprev):
+    """statistics of one history + one violation per discrepancy that its last step introduced"""
+    npool = len(spec)
+    st.states += 1
+    st.transitions += npool + len(steps)
+    st.executions += r.nverify
+    st.evaluations += sum(1 for o in r.objs if o is not None) * (len(U_HIST) + 1)
+    st.max_depth = max(st.max_depth, len(steps))
+    if steps:
+        kind = steps[-1][0]
+        st.outcomes[f"hist:{kind}:{r.outcome[-1]}"] += 1
+        if r.outcome[-1] == "built" and len(set(r.flags[-1])) > 1:
+            st.nontrivial += 1
+    else:
+        kind = "pool-construction"
+        st.outcomes["hist:empty"] += 1
+    text = _h_step_text(spec, steps)
+    for key, val in r.D.items():
+        if Dprev.get(key) == val:
+            continue
+        what_kind, i = key
+        wit = {"mode": "history", "pool": pool_name, "steps": [list(s) for s in steps], "steps_text": text,
+               "object": _h_label(spec, i), "discrepancy": what_kind}
+        if what_kind == "crash":
+            _h_violate(st, f"C09|history|construction-raises|{kind}|{val[0]}",
+                       f"after {text[:-1]}, {text[-1]} raised {val[0]}: {val[1]}", wit)
+        elif what_kind == "bases":
+            _h_violate(st, f"C09|history|shared-constraint-changed-by-later-construction|{kind}|get_bases",
+                       f"{_h_label(spec, i)} = {show(r.descs[i])}: get_bases() was {val[0]} when it was built and is {val[1]} "
+                       f"after {'; '.join(text) or 'building the rest of the pool'}",
+                       {**wit, "before": val[0], "after": val[1]})
+        elif what_kind == "acc":
+            j = _h_first_diff(val[0], val[1])
+            _h_violate(st, f"C09|history|shared-constraint-changed-by-later-construction|{kind}|accepted-set",
+                       f"{_h_label(spec, i)} = {show(r.descs[i])} gave {val[0][j]} on {vname(U_HIST[j])} when it was built and gives "
+                       f"{val[1][j]} after {'; '.join(text) or 'building the rest of the pool'}",
+                       {**wit, "attr": U_HIST[j], "before": val[0][j], "after": val[1][j]})
+        else:  # born: the composite (or pool object) does not accept what its description says
+            if any(k[0] == "acc" for k in Dprev):
+                # a shared object already changed what it accepts in the prefix history (reported there): a composite
+                # built from it afterwards is a consequence, not a new discrepancy
+                st.bump("hist_consequences_of_reported_change")
+                continue
+            exp, got = val
+            j = _h_first_diff(exp, got)
+            d = r.descs[i]
+            # the same description built as a stand-alone tree from fresh, unshared parts
+            try:
+                fresh = build(d)
+                ff = _h_flags(fresh, _h_reals())
+            except PyRDLError:
+                fresh, ff = None, exp
+            if ff != exp:
+                # wrong whatever was built before: the tree sections' report (same localisation, same signature)
+                j = _h_first_diff(exp, ff)
+                _report(st, d, U_HIST[j], ff[j], exp[j], fresh)
+                continue
+            fk = {"acc": "false-accept", "rej": "false-reject"}.get(got[j], got[j])
+            _h_violate(st, f"C09|history|composite-built-from-shared-parts|{fk}|{kind}",
+                       f"after {'; '.join(text[:-1]) or 'building the pool'}, {text[-1] if text else _h_label(spec, i)} = {show(d)} "
+                       f"gives {got[j]} on {vname(U_HIST[j])}, its parts say {exp[j]}; the same description built from fresh, "
+                       f"unshared parts is correct",
+                       {**wit, "attr": U_HIST[j], "got": got[j], "expected": exp[j], "description": d})
+
+
+def _h_play_all(spec, steps, pool_flags):
+    """the runs of every non-empty prefix of `steps`, shortest first (each on a fresh pool)"""
+    runs = []
+    known = list(pool_flags)
+    for k in range(1, len(steps) + 1):
+        r = _h_play(spec, steps[:k], known)
+        runs.append(r)
+        known = r.flags
+    return runs
+
+
+def check_histories(st, pool_name, kinds_name, depth, first, seed):
+    """every history of length <= depth whose FIRST step is steps1[first] (first == -1: the empty history)"""
+    spec = H_POOLS[pool_name]
+    kinds = H_KINDS[kinds_name]
+    r0 = _h_play(spec, (), None)
+    if first < 0:
+        _h_account(st, pool_name, spec, (), r0, {})
+        return
+    npool = len(spec)
+    sel = [i for i, e in enumerate(spec) if e[3]]
+    count = [0]
+
+    def rec(prefix, prev, avail):
+        r = _h_play(spec, prefix, prev.flags)
+        _h_account(st, pool_name, spec, prefix, r, prev.D)
+        count[0] += 1
+        if (count[0] + seed) % 9973 == 77:
+            st.sample({"section": "hist", "pool": pool_name, "history": _h_step_text(spec, prefix),
+                       "last": r.outcome[-1]})
+        if len(prefix) < depth:
+            if r.outcome[-1] == "built":
+                avail = avail + [npool + len(prefix) - 1]
+            for s in _h_steps(kinds, avail):
+                rec(prefix + (s,), r, avail)
+
+    rec((_h_steps(kinds, sel)[first],), r0, sel)
+
+
+def hist_tasks(quick, seed):
+    tasks = []
+    for pool_name, kinds_name, depth in _h_families(quick):
+        sel = [i for i, e in enumerate(H_POOLS[pool_name]) if e[3]]
+        n1 = len(_h_steps(H_KINDS[kinds_name], sel))
+        tasks += [("hist", (pool_name, kinds_name, depth), i, quick, seed) for i in range(-1, n1)]
+    return tasks
+
+
+def hist_replay(st, w):
+    spec = H_POOLS[w["pool"]]
+    steps = tuple(tuple(s) for s in w["steps"])
+    r0 = _h_play(spec, (), None)
+    if not steps:
+        _h_account(st, w["pool"], spec, (), r0, {})
+        return
+    runs = [r0] + _h_play_all(spec, steps, r0.flags)
+    _h_account(st, w["pool"], spec, steps, runs[-1], runs[-2].D)
+
+
+# ------------------------------------------------------------------------------------------------
 # sharding
 # ------------------------------------------------------------------------------------------------
 def _config(quick):
@@ -1169,6 +1542,8 @@ def _shard(task):
             count += 1
             if n and (count + seed) % 37 == 11:
                 st.sample({"section": "ord", "alternatives": [show(x) for x in g], "orders_x_variants_built": n})
+    elif section == "hist":
+        check_histories(st, kind[0], kind[1], kind[2], idx, seed)
     elif section == "hint":
         for h in hints_for((kind, idx), quick):
             check_hint(st, h, U_HINT)
@@ -1182,7 +1557,7 @@ def _shard(task):
 
 def _tasks(quick, seed):
     cfg = _config(quick)
-    tasks = []
+    tasks = hist_tasks(quick, seed)  # (first: the depth-3 shards are the longest tasks)
     for section in ("d2", "d3"):
         free, allv, trip = _pools(section, cfg)
         for kind, pool in (("anyof", free), ("allof", allv), ("param", allv), ("unary", allv)):
@@ -1210,7 +1585,7 @@ def run(ctx):
     cfg = _config(quick)
     tasks = _tasks(quick, ctx.seed)
     for _, st in pmap(_shard, tasks):
-        ctx.merge(st)
+        _h_merge(ctx, st)
     d3free, d3all, trip = _pools("d3", cfg)
     ctx.bounds = {
         "d2": {"leaves": [show(x) for x in LEAVES_FULL] + ["Var(T,decl)", "Var(U,decl)"],
@@ -1232,7 +1607,24 @@ def run(ctx):
                      "pairs": "all ordered pairs sharing a variable", "universe": [vname(v) for v in cfg["useq"]]},
         "hints": {"level1": len(hint_level1()), "shapes": "classes, IntegerAttr[t], ArrayAttr[e], G[a,b], G[a]; `|` and Union[...] of 2 "
                   "(all ordered pairs) and of 3 (restricted); Annotated[h, c]", "universe": [vname(v) for v in U_HINT]},
-        "restrictions": ["no VarConstraint below an AnyOf alternative (implementation-defined binding semantics)",
+        "history": {
+            "families": [
+                {"pool": {e[0]: (show(e[2]) if e[1] == "leaf" else f"{e[1]}({', '.join(H_POOLS[pn][i][0] for i in e[2])})")
+                                + ("" if e[3] else "  [hidden part: probed, never an operand]") for e in H_POOLS[pn]},
+                 "step_kinds": list(H_KINDS[kn]), "max_steps": depth,
+                 "histories": "the empty history and EVERY sequence of <= max_steps steps; a step = one kind x every ordered pair "
+                              "(every single object for msg / var) of selectable pool objects and results of earlier steps "
+                              "(the same object twice included); refused (PyRDLError) steps stay in the history"}
+                for pn, kn, depth in _h_families(quick)],
+            "step": "construct through the public API, then get_bases() on the result; the LAST step also verify() on the universe",
+            "probe": "after the last step: get_bases() of every live object (pool, hidden parts, earlier results) equals its "
+                     "value at construction; verify() of every live object on the whole universe equals what it gave when it "
+                     "was built (pool objects, new composite: == reference evaluation of the description)",
+            "universe": [vname(v) for v in U_HIST],
+            "fresh_pool_per_history": True},
+        "restrictions": ["no VarConstraint below an AnyOf alternative in the tree sections (implementation-defined binding "
+                         "semantics); in histories every VarConstraint has its own name and all constraints of a composite see "
+                         "the same attribute, so a variable below a union is harmless there",
                          "all occurrences of a variable name carry the same declared constraint",
                          "inference is only checked on contexts harvested from an accepting run (all subsets of its bindings)",
                          "isa() on a top-level Annotated hint raises the documented 'unsupported type hint' ValueError: skipped"],
@@ -1243,7 +1635,9 @@ def run(ctx):
                 "at least one value of the universe (sequence pairs: share a variable)")
     ctx.assumptions = ["reference evaluator accept() in props/c09.py is the meaning of the AST",
                        "model<->attribute conversion (real/to_model) is faithful for the classes used",
-                       "PyRDLError at construction time is a documented refusal, not a verdict"]
+                       "PyRDLError at construction time is a documented refusal, not a verdict",
+                       "histories: xDSL is deterministic, so what an object accepted at the end of a prefix history is what it "
+                       "accepts at the same point of every extension (extensions do not re-verify intermediate results)"]
 
 
 # ------------------------------------------------------------------------------------------------
@@ -1262,6 +1656,8 @@ def replay(rep) -> bool:
         check_hint(st, tup(w["hint"]), [tup(w["attr"])])
     elif mode == "order":
         check_order_group(st, tup(w["alts"]), [tup(w["attr"])])
+    elif mode == "history":
+        hist_replay(st, w)
     elif mode == "infer":
         ast = tup(w["ast"])
         _check_infer(st, ast, build(ast), {n: real(tup(v)) for n, v in w["vars"].items()}, set())
